@@ -283,6 +283,7 @@ type driver struct {
 
 	fired     []string // what was actually fired, in order ("running:g0:change", …)
 	stopKinds map[string]bool
+	sawClosed bool
 	finding   *vt.Finding // first violation seen by the driver itself (Shutdown panics / blocks …)
 	returned  bool
 	res       runResult
@@ -504,7 +505,7 @@ func (d *driver) safeOnly(acts []Act) []Act {
 	return out
 }
 
-const inProcessLimit = 25 * time.Second
+const inProcessLimit = 15 * time.Second
 
 // drive runs one script to completion.  It returns false when the run got
 // stuck (watchdog), in which case the collector goroutine is still alive.
@@ -550,6 +551,15 @@ func (d *driver) drive(limit time.Duration) (finished bool, stuck string) {
 			return false, fmt.Sprintf("state %v, stop fired %v (%d), pending triggers %d, fired %v", d.col.GetState(), d.stopKinds, d.stop, d.pending(), d.fired)
 		case <-tick.C:
 			now := time.Now()
+			// GetState() sample: a known state, and Closed is final
+			if st := d.col.GetState(); st < otelcol.StateStarting || st > otelcol.StateClosed {
+				d.note(vt.Failf("state/unknown-value", "GetState() returned %d", int(st)))
+			} else {
+				if d.sawClosed && st != otelcol.StateClosed {
+					d.note(vt.Failf("state/left-Closed", "GetState() went from Closed to %v", st))
+				}
+				d.sawClosed = d.sawClosed || st == otelcol.StateClosed
+			}
 			if len(d.resend) > 0 && now.After(d.nextResend) {
 				// a signal sent before Run provably listened: send it again while it shows no effect
 				var keep []syscall.Signal
@@ -681,13 +691,8 @@ func (d *driver) oracle() *vt.Finding {
 			if e.Gen > last {
 				last = e.Gen
 			}
-			if e.State != "Starting" {
-				return vt.Failf("state/retrieve-while-"+e.State, "configuration of generation %d was fetched while the collector state was %s (want Starting)%s", e.Gen, e.State, fmtLog(ev, i))
-			}
-			// O2: nothing of an older generation may be live when the next configuration is brought up
-			for k := range live {
-				return vt.Failf("overlap/retrieve-before-old-shutdown", "configuration of generation %d is fetched while %s is still live%s", e.Gen, k, fmtLog(ev, i))
-			}
+			// when the next configuration is fetched is not constrained by the statement (only when its components
+			// are created), so nothing is asked here
 		case "create":
 			if e.Err {
 				continue
@@ -997,5 +1002,5 @@ func run(c *vt.C) func(Script) (bool, string, *vt.Finding) {
 func init() { cRun.ReplayRepeat = 20 }
 
 func TestRunLoop(t *testing.T) {
-	vt.Run(t, cRun, vt.N(6000, 400000), gen, run(cRun))
+	vt.Run(t, cRun, vt.N(16000, 1000000), gen, run(cRun))
 }
